@@ -132,7 +132,10 @@ def scenarios(tier, seed):
                 pday = _dt.date(hy, 2, 29) + _dt.timedelta(days=off) - _dt.timedelta(days=m)
                 w = S(crop, "Loam", seed=40 + off, plant_md=(pday.month, pday.day), year=pday.year, seasons=2, regime="warm")
                 leap.append(w)
-    scs += sp + [b, c, d, e, f, g, h, i] + ends + leap
+    # water-table observations listed in another order than by date (Constant and Variable), a repeated reading
+    unsorted = [S("Barley", "Loam", seed=50, gw={"water_table": "Y", "method": meth, "dates": ["2001/07/01", "2001/04/20", "2001/09/01", "2001/05/25"], "values": [1.1, 2.0, 1.6, 1.4]})
+                for meth in ("Constant", "Variable")]
+    scs += sp + [b, c, d, e, f, g, h, i] + ends + leap + unsorted
     # the pairwise covering array over the configuration dimensions (every pair of option levels occurs in some run)
     scs += L.pairwise_cases(seed)
     return scs
